@@ -130,7 +130,13 @@ class EncodeState:
             str_encoding = get_string_encoding(base_data_type, base_type_encoding,
                                                is_highlow_byte_order)
             if str_encoding is not None:
-                raw_value = internal_value.encode(str_encoding)
+                try:
+                    raw_value = internal_value.encode(str_encoding, errors="strict")
+                except UnicodeEncodeError:
+                    odxraise(
+                        f"The value '{internal_value!r}' cannot be represented "
+                        f"as a {str_encoding} string", EncodeError)
+                    raw_value = internal_value.encode(str_encoding, errors="replace")
             else:
                 raw_value = b""
 
